@@ -9,6 +9,7 @@ package mc
 
 import (
 	"fmt"
+	"net"
 	"strings"
 	"testing"
 	"time"
@@ -290,6 +291,87 @@ func runC05(t *testing.T, s c05Scn) (x nExec) {
 	return
 }
 
+// c05Tickers: the cluster worlds above emulate the node's tickers (the harness is the clock);
+// this part runs the REAL scheduling code (schedule / triggerFunc / pushPullTrigger) on one node
+// that believes it is in a cluster of n members and checks what the emulation takes for granted
+// and what the settling bound rests on: state exchanges are initiated once per size-scaled
+// PushPullInterval, for ever, and probes once per ProbeInterval.
+func c05Tickers(t *testing.T, rep *Report, n int) {
+	res := inBubble(t, func(b *bubble) {
+		installDetRand()
+		nd, err := newNode("o", ip4(1), func(c *ml.Config) {
+			c.ProbeInterval = time.Second
+			c.ProbeTimeout = 200 * time.Millisecond
+			c.GossipInterval = 200 * time.Millisecond
+			c.PushPullInterval = time.Second
+			c.DisableTcpPings = true // every dial below is a state exchange
+			c.IndirectChecks = 0
+			c.SuspicionMult = 1000 // nobody is declared dead within the horizon: n stays put
+			c.TCPTimeout = 100 * time.Millisecond
+		})
+		must(err)
+		o := b.track(nd)
+		advance(time.Microsecond)
+		for i := 0; i < n-1; i++ {
+			o.M.VAliveNode(&ml.VAlive{Incarnation: 1, Node: fmt.Sprintf("f%03d", i), Addr: net.IPv4(10, 0, byte(1+i/200), byte(1+i%200)).To4(), Port: 7946, Vsn: defaultVsn}, nil, false)
+		}
+		advance(time.Microsecond)
+		var dials, pings []time.Duration
+		t0 := time.Now()
+		o.T.OnDial = func(a ml.Address, d time.Duration) (net.Conn, error) {
+			dials = append(dials, time.Since(t0))
+			return nil, &net.OpError{Op: "dial", Net: "tcp", Err: fmt.Errorf("connection refused")}
+		}
+		o.T.OnSend = func(p sentPkt) {
+			if leaves, err := explode(p.Buf); err == nil {
+				for _, l := range leaves {
+					var pg ml.VPing
+					if l[0] == ml.VPingMsg && ml.VDecode(l[1:], &pg) == nil {
+						pings = append(pings, time.Since(t0))
+						// the imaginary members are healthy: they acknowledge
+						ack, _ := ml.VEncode(ml.VAckRespMsg, &ml.VAckResp{SeqNo: pg.SeqNo}, false)
+						o.T.Deliver(ack, simAddr(p.To))
+					}
+				}
+			}
+		}
+		o.M.VSchedule()
+		const horizon = 64 * time.Second
+		time.Sleep(horizon)
+		settle()
+		o.M.VDeschedule()
+		want := ml.VPushPullScale(time.Second, n)
+		rep.Evaluations += len(dials) + len(pings)
+		bad := ""
+		if len(dials) < int((horizon-want)/want)-1 {
+			bad = fmt.Sprintf("only %d state exchanges initiated in %v (one per %v expected)", len(dials), horizon, want)
+		}
+		for i := 1; i < len(dials) && bad == ""; i++ {
+			if gap := dials[i] - dials[i-1]; gap < want || gap > want+150*time.Millisecond {
+				bad = fmt.Sprintf("state exchanges %d and %d were initiated %v apart (scaled interval %v); instants %v", i-1, i, gap, want, dials[:min(len(dials), 10)])
+			}
+		}
+		if bad != "" {
+			rep.Violate("anti-entropy-period", fmt.Sprintf("a node that knows %d members, PushPullInterval 1s: %s", n, bad), map[string]any{"tickers_n": n})
+		}
+		// probes: the failure detector keeps its pace
+		maxI := time.Duration(o.Cfg.AwarenessMaxMultiplier) * time.Second
+		for i := 1; i < len(pings); i++ {
+			if gap := pings[i] - pings[i-1]; gap > maxI+time.Second {
+				rep.Violate("probe-period", fmt.Sprintf("n=%d: consecutive probes %v apart (slowest scaled interval %v)", n, gap, maxI), map[string]any{"tickers_n": n})
+				break
+			}
+		}
+		if len(pings) < int(horizon/(maxI+time.Second)) {
+			rep.Violate("probe-period", fmt.Sprintf("n=%d: %d probes in %v", n, len(pings), horizon), map[string]any{"tickers_n": n})
+		}
+		rep.Outcome(fmt.Sprintf("tickers n=%d: %d exchanges every %v, %d probes", n, len(dials), want, len(pings)))
+	})
+	if res.Panic != nil {
+		rep.Violate("panic:tickers", fmt.Sprint(res.Panic), map[string]any{"tickers_n": n})
+	}
+}
+
 func TestC05(t *testing.T) {
 	rep := newReport()
 	defer rep.Write(t)
@@ -315,6 +397,12 @@ func TestC05(t *testing.T) {
 	rep.Bounds = map[string]any{"nodes": ns, "message_deviations": bound, "fault_window": "2s..13s", "settle": c05Settle(3).String(), "actions": c05Actions}
 	rep.Rule = "16 scripted environment actions (partitions symmetric/one-way of 4-10 s, crashes, same-address restarts quick / after detection / remembered at a higher incarnation, leaves, UpdateNode, false accusation) x all executions with <= 1 departure from the default fate of any packet (drop, 700 ms delay, duplicate) or stream dial (refused) inside the fault window; quiet suffix of the settling time with reliable delivery and fair (rotating) peer selection; judged only if the live nodes' member lists still connect them when faults stop"
 	rep.Assumptions = []string{"fair peer selection after the faults stop (the statement's bound cannot hold for an adversarial random source)", "T_settle = 2*(B(C03) + (n-1)^2*PushPullInterval + 2*suspicion timeout)", "<= 4 nodes; one scripted fault + <= bound message faults per history"}
+	for i, n := range []int{2, 3, 32, 33, 40, 64, 65, 130} {
+		if mine(1000 + i) {
+			journal("C05 tickers n=%d", n)
+			c05Tickers(t, rep, n)
+		}
+	}
 	digests := map[string]bool{}
 	execs, skipped := 0, 0
 	for _, n := range ns {
